@@ -141,7 +141,8 @@ def run(ctx):
     r4 = ctx.rule("C32.4", "scratch paths are functions of the evaluation hash; readers read what writers wrote", floor=3)
     for q in ("get_job_scratch_dir", "get_job_scratch_file"):
         fn = sm.func(q)
-        ok = "job.eval_hash" in src(fn) and "'jobs'" in src(fn)
+        rets = [src(r.value) for r in ast.walk(fn) if isinstance(r, ast.Return)]
+        ok = len(rets) == 1 and "job.eval_hash" in rets[0] and "'jobs'" in rets[0] and "job.id" not in rets[0]
         r4.check(ok, f"{sm.rel}:{q}", "a job's scratch location is not derived from its eval_hash", sm.rel, fn.lineno)
     pr = sm.func("parse_job_result")
     ok = "get_job_scratch_file(scratch_prefix, job, SCRATCH_OUTPUT)" in src(pr) and "pickle.load(infile)" in src(pr)
